@@ -68,7 +68,7 @@ PLAN["C14"] = {
     "exhaustive": False,
     "bounds": "SAN: every valid UTF-8 string of <= 6 bytes (quick) / <= 8 bytes (thorough); Square::try_from: <= 4 bytes; FEN: the "
               "field parsers behind the regex gate on every input the gate admits, placement = a concrete run of 31 (resp. 7) eights followed by every symbolic "
-              "tail of 15/16 (18) bytes (quick); every placement <= 24 / <= 48 bytes and 54-byte digit floods (thorough); castling field <= 4 bytes",
+              "tail of 15/16 (18) bytes and every placement <= 24 bytes (quick); every placement <= 48 bytes and 54-byte digit floods (thorough); castling field <= 4 bytes",
     "outside": ["the UCI command loop (Client::exec owns stdin and spawns threads)", "the regex gate itself (Regex::new at run time)",
                 "longer strings"],
     "trusted": ["rustc / kani-compiler / CBMC", "regex crate: only strings matching FEN_REGEX reach the field parsers"],
@@ -87,7 +87,7 @@ PLAN["C14"] = {
         Inst("c14::fen_placement_flood7_tail18", sub="C14 FEN", unwind=28, unwindset=(("Board as std::convert::From", 66), ("fen_placement_after_flood", 20)), timeout=3600, mem_gb=12,
              functions=("Board::try_parse (via hook)", "PieceIndex::try_parse", "Board::from(&ArrayMap)", "Square::try_from(u8)"),
              bounds="seven '8's followed by every tail of 18 bytes over the regex alphabet with 7 slashes"),
-        Inst("c14::fen_placement_le24", sub="C14 FEN", tiers=("thorough",), unwind=26, unwindset=(("Board as std::convert::From", 66), ("from_rS", 66)), timeout=3600, mem_gb=12,
+        Inst("c14::fen_placement_le24", sub="C14 FEN", unwind=26, unwindset=(("Board as std::convert::From", 66), ("from_rS", 66)), timeout=3600, mem_gb=12,
              functions=("Board::try_parse (via hook)", "PieceIndex::try_parse", "Board::from(&ArrayMap)", "Square::try_from(u8)"), bounds="placement fields <= 24 bytes over the regex alphabet, 7 slashes"),
         Inst("c14::fen_placement_le48", sub="C14 FEN", tiers=("thorough",), unwind=50, unwindset=(("Board as std::convert::From", 66),), timeout=7200, mem_gb=16,
              functions=("Board::try_parse (via hook)", "PieceIndex::try_parse", "Board::from(&ArrayMap)", "Square::try_from(u8)"), bounds="placement fields <= 48 bytes over the regex alphabet, 7 slashes"),
